@@ -209,7 +209,7 @@ def run(facts, tier):
     variants = adt_variants(facts, "jaq_core::compile::Term") or []
     IMMEDIATE = {norm(d) for d in immediate_invokers(facts)}
     l3.notes.append(f"immediate invokers: {sorted(IMMEDIATE)}")
-    for mode in ("run", "paths"):
+    for mode in ("run", "paths", "update"):
         f, m = evaluator(facts, mode)
         if m is None:
             l3.missing_anchor(f"TermId::{mode}")
@@ -226,7 +226,7 @@ def run(facts, tier):
                 calls = subterm_calls(a["body"], pat_binds(a["pat"]))
                 eager = sorted({str(c[0]) for c in calls if c[2] == 0})
                 l3.examined((mode, name, str(v["args"][1].get("ctor")) if name == "Pipe" else ""), len(calls) > 1, {"mode": mode, "term": name, "eager_operands": eager, "deferred": len([c for c in calls if c[2] > 0])} if name in ("Comma", "Pipe", "Alt") else None)
-                if len(eager) > 1 and (mode, name) not in ALLOWED_TWO:
+                if len(eager) > 1 and (mode, name) not in ALLOWED_TWO and mode != "update":  # the update evaluator is examined for derived operands only
                     l3.violate(f"{mode}/{name}", f"TermId::{mode}, {name}: operands {eager} are all constructed eagerly; later operands must be built on demand (a `first(f, g)` would start evaluating g)", where=a["sp"])
                 # operands that are not sub-terms of the pattern themselves (the index filters inside a path) but are run
                 # when the arm is run: closures handed to an immediate invoker do not defer anything
